@@ -8,7 +8,7 @@
 (* specification's decoder returns the logical tags (MetaRoundTrip); the   *)
 (* real reader's accessors are validated by Trace_Read against Meta.tla.   *)
 (***************************************************************************)
-EXTENDS Movie, Reader, Json
+EXTENDS Movie, Reader, Json, SequencesExt
 
 CONSTANTS Titles, Years, Posters, Summaries, Unknowns, Shapes, Orders
 
@@ -90,7 +90,7 @@ Render == /\ ~out.done
           /\ \E bytes \in {RenderPlain(TheMovie, <<>>)} :
              \E f \in {DecodeInput([img |-> ImgOf(bytes), has_init |-> FALSE])} :
                /\ Open(f)
-               /\ out' = [done |-> TRUE, bytes |-> bytes]
+               /\ out' = [done |-> TRUE, bytes |-> bytes, fields |-> SetToSeq(FieldMapOf(bytes))]
           /\ UNCHANGED <<title, year, poster, summary, unk, shape, order>>
 Next == Render
 Spec == Init /\ [][Next]_vars
@@ -99,6 +99,6 @@ Spec == Init /\ [][Next]_vars
 MetaRoundTrip == out.done => /\ file.ok
                              /\ [title |-> file.meta.title, year |-> file.meta.year, poster |-> file.meta.poster,
                                  summary |-> file.meta.summary] = Logical
-Emit == out.done => PrintT("CASE " \o ToJson([file |-> out.bytes, title |-> title, year |-> year, poster |-> poster,
+Emit == out.done => PrintT("CASE " \o ToJson([file |-> out.bytes, fields |-> out.fields, title |-> title, year |-> year, poster |-> poster,
                                               summary |-> summary, unk |-> unk, shape |-> shape, order |-> order]))
 =============================================================================
